@@ -89,7 +89,19 @@ pub fn export(db: &ReflectionDatabase, out: &mut dyn Write) {
         }
         enums.insert(ename.to_string(), json!({"name": e.name.as_ref(), "items": Value::Object(items)}));
     }
+    // BrickColor number -> RGB, dense (index = number, [] where no colour has that number)
+    let mut bricks: Vec<Value> = Vec::new();
+    for n in 0..=1032u16 {
+        bricks.push(match rbx_types::BrickColor::from_number(n) {
+            Some(b) => {
+                let c = b.to_color3uint8();
+                json!([c.r, c.g, c.b])
+            }
+            None => json!([]),
+        });
+    }
     let doc = json!({
+        "brickcolors": bricks,
         "version": db.version.to_vec(),
         "classes": Value::Object(classes),
         "enums": Value::Object(enums),
